@@ -727,6 +727,8 @@ func hexb(s string) []byte {
 }
 
 func genC13(c *Ctx) {
+	// consecutive seeds give shifted SplitMix64 streams; re-seed from the first output
+	c.R = NewRng(c.R.U64())
 	r := c.R
 	all := func(tag string, f ...*tnode) {
 		c13Dump(c, tag, f)
